@@ -46,17 +46,17 @@ ALIAS_FUNCS = {'abs'}
 
 # explicit raise / assert sites allowed inside the printing pipeline: (function, normalised text) -> reason
 MAY_RAISE_ALLOWED = {
-    ('pretty_cnamedtuple', 'raise fieldnames'):
+    ('pretty_cnamedtuple', 'raise _'):
         'cached resolution failure; the only caller catches Exception and prints a plain tuple',
     ('commentdoc', 'raise ValueError'):
         'empty comment text; every call site tests the comment for truthiness first',
-    ('str_to_lines', 'assert max_len > 0'):
+    ('str_to_lines', 'assert _ > 0'):
         'the caller passes max(..., 10) (C12.c floor)',
-    ('str_to_lines', 'assert isinstance(s, bytes)'):
+    ('str_to_lines', 'assert isinstance(_, bytes)'):
         'str/bytes are the only registered types of the string printer',
-    ('determine_quote_strategy', 'assert contains_single and contains_double'):
+    ('determine_quote_strategy', 'assert _ and _'):
         'both early returns above it handle the other cases',
-    ('pretty_str.<locals>.evaluator', 'assert multiline_strategy == MULTILINE_STRATEGY_INDENTED'):
+    ('pretty_str.<locals>.evaluator', 'assert _ == MULTILINE_STRATEGY_INDENTED'):
         'the four strategies are a closed set; the three others are handled above',
     ('_run_pretty_visited', 'raise ValueError'):
         'return-type validation demanded by C14',
@@ -66,19 +66,43 @@ MAY_RAISE_ALLOWED = {
     ('fast_fitting_predicate', 'raise ValueError'): 'unknown document kind / mode (C04.a default branch)',
     ('smart_fitting_predicate', 'raise ValueError'): 'unknown document kind / mode (C04.a default branch)',
     ('validate_doc', 'raise ValueError'): 'rejects non-documents handed to a combinator',
-    ('PrettyContext._replace', 'assert passed_keys.issubset(set(fieldnames))'): 'programming-error guard on field names',
-    ('CommentAnnotation.__init__', 'assert isinstance(value, str)'): 'comment text must be str',
-    ('Nest.__init__', 'assert isinstance(indent, int)'): 'programming-error guard',
-    ('Nest.__init__', 'assert isinstance(doc, (Doc, str))'): 'programming-error guard (accepts every document)',
-    ('Group.__init__', 'assert isinstance(doc, (Doc, str))'): 'programming-error guard (accepts every document)',
-    ('AlwaysBreak.__init__', 'assert isinstance(doc, (Doc, str))'): 'programming-error guard (accepts every document)',
-    ('SLine.__init__', 'assert isinstance(indent, int)'): 'programming-error guard',
+    ('PrettyContext._replace', 'assert _.issubset(set(_))'): 'programming-error guard on field names',
+    ('CommentAnnotation.__init__', 'assert isinstance(_, str)'): 'comment text must be str',
+    ('Nest.__init__', 'assert isinstance(_, int)'): 'programming-error guard',
+    ('Nest.__init__', 'assert isinstance(_, (Doc, str))'): 'programming-error guard (accepts every document)',
+    ('Group.__init__', 'assert isinstance(_, (Doc, str))'): 'programming-error guard (accepts every document)',
+    ('AlwaysBreak.__init__', 'assert isinstance(_, (Doc, str))'): 'programming-error guard (accepts every document)',
+    ('SLine.__init__', 'assert isinstance(_, int)'): 'programming-error guard',
     ('register_pretty', 'raise ValueError'): 'argument validation at registration time',
     ('register_pretty.<locals>.decorator', 'raise ValueError'): 'signature validation at registration time',
     ('register_pretty.<locals>.decorator', 'assert callable(predicate)'): 'validated above',
     ('is_registered', 'raise ValueError'): 'flag combination validation',
     ('pretty_call_alt', 'raise'): '',
 }
+
+
+def _norm_label(node, fn_node):
+    """text of a raise/assert with the function's own locals and parameters replaced by '_' (robust to renames)"""
+    import copy
+    loc = set()
+    for a in ast.walk(fn_node):
+        if isinstance(a, ast.arg):
+            loc.add(a.arg)
+        if isinstance(a, ast.Name) and isinstance(a.ctx, ast.Store):
+            loc.add(a.id)
+    t = copy.deepcopy(node)
+    for x in ast.walk(t):
+        if isinstance(x, ast.Name) and x.id in loc:
+            x.id = '_'
+    return src(t)
+
+
+def _implied(test, fs):
+    """every atomic conjunct of the asserted test is a dominating fact"""
+    from engine.astutil import atomise
+    have = {(f.text, f.pol) for f in fs}
+    atoms = atomise(test, True)
+    return bool(atoms) and all((a.text, a.pol) in have for a in atoms)
 
 
 def _value_aliases(fn, value):
@@ -330,10 +354,16 @@ def run(repo, rep):
                 e = s.exc.func if isinstance(s.exc, ast.Call) else s.exc
                 label = 'raise ' + (dotted(e) or src(e))
             elif isinstance(s, ast.Assert):
-                label = 'assert ' + src(s.test)
+                label = 'assert ' + _norm_label(s.test, f.node)
             if label is None:
                 continue
             n += 1
+            if isinstance(s, ast.Assert) and _implied(s.test, g.of(s)):
+                rep.ok('C07.e', '%s:%s' % (f.qualname, label), '%s:%d' % (f.module.relpath, s.lineno), 'asserted test is implied by the dominating tests')
+                continue
+            if isinstance(s, ast.Raise) and label.split()[1] not in ('ValueError', 'TypeError', 'KeyError', 'IndexError', 'AssertionError', 'RuntimeError',
+                                                                       'NotImplementedError', 'Exception', 'AttributeError', 'StopIteration'):
+                label = 'raise ' + _norm_label(s.exc.func if isinstance(s.exc, ast.Call) else s.exc, f.node)
             if label.startswith('raise ') and label.split()[1] in ('e', 'exc', 'StopIteration'):
                 rep.ok('C07.e', '%s:%s' % (f.qualname, label), '%s:%d' % (f.module.relpath, s.lineno), 're-raise')
                 continue
